@@ -374,6 +374,7 @@ def run(prog, tier, extra=None):
     res = Result("C09", "other")
     R1 = res.rule("C09.layout", "every fixed-layout field is written and read at the same [offset, offset+width)", floor=55)
     R2 = res.rule("C09.size-const", "declared size constants equal the writer's fixed prefix", floor=4)
+    R4 = res.rule("C09.size-predictor", "Transaction::get_serialized_size is the same linear form as the writer's length", floor=1)
     R3 = res.rule("C09.tags", "Message tags are injective and each decode arm constructs the variant carrying that tag", floor=28)
     cd = Codec(prog)
     summary = {}
@@ -440,6 +441,64 @@ def run(prog, tier, extra=None):
             else:
                 res.sample({"codec": label, "constant": const, "value": v, "verdict": "equals the writer's fixed prefix"})
     res.extra["codecs"] = summary
+
+    # R4: the size predictor is the same linear form as the writer's length
+    from ..linear import Lin, Linearizer
+    gs = prog.body(CORE + "consensus::transaction::Transaction::get_serialized_size")
+    tw = find_body(prog, "consensus::transaction::Transaction::serialize_for_net_with_hop")
+    if gs is not None:
+        res.instance(R4)
+        chg = Chaser(gs)
+        lzg = Linearizer(gs, chg)
+        predicted = None
+        for blk in gs.blocks:
+            for st in blk["s"]:
+                if st[0] == "=" and st[1] == [0, []]:
+                    predicted = lzg.lin(chg.rvalue(st[2], 0))
+        # expected from the writer table
+        chw = Chaser(tw)
+        expected = {}
+        const = 0
+        ok = True
+        segs_expr = None
+        for bb, t in tw.calls():
+            if (call_name(t) or "") == "std::slice::concat":
+                e = chw.origin(t["args"][0])
+                for x in walk(e):
+                    if x[0] == "agg" and x[1][0] == "array" and (segs_expr is None or len(x[2]) > len(segs_expr)):
+                        segs_expr = x[2]
+        for el in segs_expr or []:
+            w = cd.width_of(tw, el)
+            if w is not None:
+                const += w
+                continue
+            # variable part: `self.F` written raw, or the concatenation of per-element writers over `self.F`
+            src = cd.source_field(el)
+            inner = None
+            for x in walk(el):
+                if x[0] == "agg" and x[1][0] == "closure":
+                    cb = prog.bodies.get(x[1][1])
+                    if cb is not None:
+                        for _, ct in cb.calls():
+                            tgt = prog.bodies.get(ct.get("res") or "")
+                            if tgt is not None and "serialize_for_net" in tgt.path:
+                                ws = cd.writer_table(tgt)
+                                if ws and all(v is not None for _, v in ws):
+                                    inner = sum(v for _, v in ws)
+            if src is None:
+                ok = False
+                continue
+            expected[src.split(".")[0] if inner else src] = inner or 1
+        if predicted is None or not ok:
+            res.not_decided.append("Transaction::get_serialized_size: predictor or writer does not normalise")
+        else:
+            got = {k[1][2].replace("self.", ""): int(v) for k, v in predicted.t.items() if k[0] == "len"}
+            exp = dict(expected)
+            if int(predicted.c) != const or got != exp:
+                res.add(Finding(R4, "C09.size-predictor|Transaction", "Transaction::get_serialized_size predicts %d + %s but serialize_for_net writes %d + %s"
+                                % (int(predicted.c), got, const, exp), gs.loc(0)))
+            else:
+                res.sample({"rule": R4, "predicted": "%d + %s" % (int(predicted.c), got), "written": "%d + %s" % (const, exp), "verdict": "same linear form"})
 
     # tags
     gv = prog.body(CORE + "msg::message::Message::get_type_value")
